@@ -180,7 +180,8 @@ OneHopVerifies ==
       r1 == Ingress(q0, TRUE, V2, VS0)
       r2 == Egress(r1.p, V2)
       r3 == Ingress(r2.p, FALSE, V1, VS0)
-  IN /\ back.ok
+  IN BROKEN = "none" =>      \* (the oracle self-check variants change Mac() only)
+     /\ back.ok
      /\ r1.k = "ok" /\ r1.act = "egress"
      /\ r2.k = "ok"
      /\ r3.k = "ok" /\ r3.act = "local"
